@@ -19,12 +19,12 @@ REQUIRED_THEOREMS = [
     "TapkeeVerif.Knn.vptree_build_inv",
     "TapkeeVerif.Knn.vptree_search_exact",
     "TapkeeVerif.Knn.three_methods_agree",
-    "TapkeeVerif.Knn.CoverQuery.cover_query_exact",
-    "TapkeeVerif.Knn.CoverQuery.cover_tree_exact",
+    "TapkeeVerif.Knn.CoverQuery.cover_query_exact_partial",
+    "TapkeeVerif.Knn.CoverQuery.cover_tree_exact_partial",
     "TapkeeVerif.Knn.CoverQuery.cover_copy_bound_refuted",
     "TapkeeVerif.Knn.CoverQuery.batchCreate_leaves",
     "TapkeeVerif.Knn.CoverQuery.batchCreate_wf",
-    "TapkeeVerif.Knn.CoverQuery.cover_tree_end_to_end",
+    "TapkeeVerif.Knn.CoverQuery.cover_tree_end_to_end_partial",
     "TapkeeVerif.Knn.CoverQuery.cover_top_uncovered_drops",
     "TapkeeVerif.Knn.CoverQuery.batchCreate_fuel_suffices",
     "TapkeeVerif.Knn.CoverQuery.batchCreate_fuel_mono",
@@ -164,7 +164,7 @@ def classify(c, io, mf):
     elif method == "covertree" and mf.get("wf") not in (None, "1"):
         return ("broken", "cover-tree-wf-certificate", "the cover tree built by batch_create is not well formed (wf=%s): first child "
                 "carrying the parent's point / true parent distances / max_dist bounding all descendants / every sample once "
-                "— the hypothesis of cover_query_exact" % mf.get("wf"))
+                "— the hypothesis of cover_query_exact_partial" % mf.get("wf"))
     if method == "covertree" and "bt" in mf:
         # the Lean model of batch_create (run with the scale values the real code computed) against the real tree
         if mf.get("bh") != "ok":
